@@ -55,6 +55,13 @@ func RunFunction(P *Program, name string, cfg *Config, so SolveOpts) *FuncReport
 	fn := P.FindFunc(name)
 	c := P.Contracts[name]
 	moved := false
+	if fn != nil && fn.TypeParams().Len() > 0 && len(fn.TypeArgs()) == 0 {
+		// a generic function itself (it answers to a recorded name after a rename): checked on its instance
+		if inst := retargetFunc(P, name); inst != nil && len(inst.TypeArgs()) > 0 {
+			fn = inst
+			moved = true
+		}
+	}
 	if fn == nil {
 		if fn = retargetFunc(P, name); fn != nil {
 			moved = true
@@ -68,6 +75,9 @@ func RunFunction(P *Program, name string, cfg *Config, so SolveOpts) *FuncReport
 	x := NewExec(P, cfg)
 	if moved {
 		x.nameOverride = name
+		if cn := CanonName(fn); strings.HasPrefix(cn, name+"[") {
+			x.nameOverride = cn // the instance the contract of a generic function is checked on
+		}
 		x.Abstracted["function under contract moved: "+name+" is now "+CanonName(fn)]++
 	}
 	loadSpecDecls(x, P)
@@ -206,6 +216,10 @@ func RunFunction(P *Program, name string, cfg *Config, so SolveOpts) *FuncReport
 	close(ch)
 	wg.Wait()
 	rep.SolveMs = time.Since(t1).Milliseconds()
+	oname := name
+	if x.nameOverride != "" {
+		oname = x.nameOverride
+	}
 	// F2 (no-panic) sites are aggregated into one obligation per function: site names depend on the
 	// shape of the code, the clause "no_panic" does not.
 	var agg *OblResult
@@ -220,7 +234,7 @@ func RunFunction(P *Program, name string, cfg *Config, so SolveOpts) *FuncReport
 		}
 		if r.Family == "F2" {
 			if agg == nil {
-				agg = &OblResult{Name: name + "#F2.no_panic", Family: "F2", Func: name, Status: "discharged", Backend: r.Backend}
+				agg = &OblResult{Name: oname + "#F2.no_panic", Family: "F2", Func: oname, Status: "discharged", Backend: r.Backend}
 			}
 			agg.Paths += r.Paths
 			agg.Millis += r.Millis
@@ -246,7 +260,7 @@ func RunFunction(P *Program, name string, cfg *Config, so SolveOpts) *FuncReport
 		// same, so that one appearing later fails something the ledger knows
 		if _, out := c.Flags["may_panic"]; !out {
 			if _, tr := c.Flags["trusted"]; !tr {
-				agg = &OblResult{Name: name + "#F2.no_panic", Family: "F2", Func: name, Status: "discharged", Backend: "syntactic", Paths: 1}
+				agg = &OblResult{Name: oname + "#F2.no_panic", Family: "F2", Func: oname, Status: "discharged", Backend: "syntactic", Paths: 1}
 			}
 		}
 	}
